@@ -89,9 +89,13 @@ func (ex *Exec) intrinsic(caller *frame, fn *ssa.Function, args []value, pos tok
 		return nil, true
 	case "verifReach":
 		lbl := ex.constStr(args[0], "reach label")
-		if !ex.reachedAny[lbl] {
-			if ex.inc.Check() != "unsat" {
+		if !ex.reachedAny[lbl] && !ex.noSolver {
+			r, model := ex.inc.CheckWithModel(ex.tc.True(), ex.inputs)
+			if r != "unsat" {
 				ex.reachedAny[lbl] = true
+				if lbl == "end" && model != nil && ex.witness == nil {
+					ex.witness = model // a concrete input valuation that drives the harness to its end
+				}
 			}
 		}
 		return nil, true
